@@ -560,7 +560,7 @@ func (env *SpecEnv) evalIndex(x *ast.IndexExpr) TV {
 
 // loadPure loads without introducing named constants when inside a quantifier.
 func (env *SpecEnv) loadPure(p PtrV, t types.Type) Val {
-	if len(env.bound) == 0 {
+	if len(env.bound) == 0 || !env.vc.mentionsBound(p.ref+" "+p.idx) {
 		return env.vc.load(env.st, p, t)
 	}
 	lay := layout(t)
@@ -573,11 +573,12 @@ func (env *SpecEnv) loadPure(p PtrV, t types.Type) Val {
 		out[k] = env.vc.sel(m, p.ref, add(p.idx, k))
 	}
 	v, _ := unflatten(t, out)
+	env.vc.assume(env.st, env.vc.wf(env.st, v, t))
 	return v
 }
 
 func (env *SpecEnv) mapLoadPure(m MapV, key string, vt types.Type) (Val, string) {
-	if len(env.bound) == 0 {
+	if len(env.bound) == 0 || !env.vc.mentionsBound(m.ref+" "+key) {
 		return env.vc.mapLoad(env.st, m, key, vt)
 	}
 	w := width(vt) + 1
@@ -593,7 +594,9 @@ func (env *SpecEnv) mapLoadPure(m MapV, key string, vt types.Type) (Val, string)
 		leaves[k] = env.vc.sel(mem, m.ref, add(base, k+1))
 	}
 	v, _ := unflatten(vt, leaves)
-	return v, and(not(eq(m.ref, "0")), eq(present, "1"))
+	pres := and(not(eq(m.ref, "0")), eq(present, "1"))
+	env.vc.assume(env.st, implies(pres, env.vc.wf(env.st, v, vt)))
+	return v, pres
 }
 
 // coerce adapts untyped constants / nil to a target type.
@@ -831,9 +834,10 @@ func (env *SpecEnv) evalCall(x *ast.CallExpr) TV {
 			sub.bound[k] = true
 		}
 		vc.pure++
+		vc.boundNames = append(vc.boundNames, bv)
 		body := func() string {
-			defer func() { vc.pure-- }()
-			return sub.evalBoolExpr(x.Args[3])
+			defer func() { vc.pure--; vc.boundNames = vc.boundNames[:len(vc.boundNames)-1] }()
+			return vc.quantBody(name == "exists", func() string { return sub.evalBoolExpr(x.Args[3]) })
 		}()
 		rng := fmt.Sprintf("(and (<= %s %s) (< %s %s))", lo, bv, bv, hi)
 		if name == "forall" {
@@ -883,9 +887,10 @@ func (env *SpecEnv) evalCall(x *ast.CallExpr) TV {
 			sub.bound[k] = true
 		}
 		vc.pure++
+		vc.boundNames = append(vc.boundNames, bv)
 		body := func() string {
-			defer func() { vc.pure-- }()
-			return sub.evalBoolExpr(x.Args[2])
+			defer func() { vc.pure--; vc.boundNames = vc.boundNames[:len(vc.boundNames)-1] }()
+			return vc.quantBody(false, func() string { return sub.evalBoolExpr(x.Args[2]) })
 		}()
 		// trigger on the slot term of the quantified map: instantiated for every key the VC mentions
 		slot := vc.mapSlot(bv, width(mt.Elem())+1)
@@ -989,4 +994,31 @@ func lookupField(t types.Type, pkg *types.Package, name string) (types.Object, [
 		}
 	}
 	return nil, nil
+}
+
+// quantBody evaluates the body of a contract quantifier. Values read from memory under the bound
+// variable are well-formed by the typed-memory assumption (the same one every load in the code
+// relies on); those facts are collected while the body is evaluated and guard it.
+func (vc *VC) quantBody(existential bool, eval func() string) string {
+	vc.quantSides = append(vc.quantSides, nil)
+	body := eval()
+	n := len(vc.quantSides)
+	sides := vc.quantSides[n-1]
+	vc.quantSides = vc.quantSides[:n-1]
+	if len(sides) == 0 {
+		return body
+	}
+	seen := map[string]bool{}
+	var uniq []string
+	for _, s := range sides {
+		if !seen[s] {
+			seen[s] = true
+			uniq = append(uniq, s)
+		}
+	}
+	vc.used["typed memory: values read under a contract quantifier are well-formed"] = true
+	if existential {
+		return and(append(uniq, body)...) // the witness is a well-formed value
+	}
+	return implies(and(uniq...), body)
 }
